@@ -344,6 +344,7 @@ type Package struct {
 	utBigRat       *types.Named
 	utBigFlt       *types.Named
 	commentedStmts map[target.Stmt]*ast.CommentGroup
+	autoAsserts    map[target.Stmt]struct{} // statements hoisted by emitMapStringAnyAssert
 	implicitCast   func(pkg *Package, V, T types.Type, pv *Element) bool
 
 	expObjTypes []types.Type // types of export objects
@@ -398,6 +399,19 @@ func (p *Package) setDoc(o types.Object, doc *ast.CommentGroup) {
 		p.Docs = make(ObjectDocs)
 	}
 	p.Docs[o] = doc
+}
+
+// markAutoAssert records a statement hoisted out of an expression by the builder itself.
+func (p *Package) markAutoAssert(stmt target.Stmt) {
+	if p.autoAsserts == nil {
+		p.autoAsserts = make(map[target.Stmt]struct{})
+	}
+	p.autoAsserts[stmt] = struct{}{}
+}
+
+func (p *Package) isAutoAssert(stmt target.Stmt) bool {
+	_, ok := p.autoAsserts[stmt]
+	return ok
 }
 
 func (p *Package) setStmtComments(stmt target.Stmt, comments *ast.CommentGroup) {
